@@ -57,7 +57,9 @@ func handles() []handle {
 			func(k int) interface{} { return func(a int) int { return 5000 + k } }, false},
 		{"Struct(T).Method(M)", -3, func(a int) int { return (&T{}).M(a) }, func(b *mocker.Builder) mocker.ExportedMocker { return b.Struct(&T{}).Method("M") },
 			func(k int) interface{} { return func(t *T, a int) int { return 5000 + k } }, false},
-		{"ExportFunc(foo).As", -4, foo, func(b *mocker.Builder) mocker.ExportedMocker { return b.ExportFunc("foo").As(func(a int) int { return 0 }) },
+		{"ExportFunc(foo).As", -4, foo, func(b *mocker.Builder) mocker.ExportedMocker {
+			return b.ExportFunc("foo").As(func(a int) int { return 0 })
+		},
 			func(k int) interface{} { return func(a int) int { return 5000 + k } }, false},
 		{"Interface(&iv).Method(Get).As", -5, func(a int) int { return iv.Get(a) },
 			func(b *mocker.Builder) mocker.ExportedMocker {
